@@ -122,6 +122,19 @@ def run_case(i, seed, tier):
         h.extend(nops)
     ops = list(h.ops)
     h.sess.close()
+    if i % 40 == 31:
+        # the object is used for another image first (another configuration, queried and mastered),
+        # then closed; the image under test is made in the same object
+        g0 = Gen(seed * 1000003 + i + 7)
+        cfg0 = g0.cfg()
+        h0 = common.History(cfg0, seed * 1000003 + i + 7, 'std')
+        h0.extend(g0.rng.choice([3, 8]))
+        ops0 = list(h0.ops)
+        h0.sess.close()
+        first_cfg, cfg_under_test = cfg0, cfg
+        ops = ops0 + [{'op': 'q_walk', 'key': 'iso_path', 'path': '/'}, {'op': 'q_write'}, {'op': 'renew', 'cfg': cfg_under_test.to_json()}] + ops
+        cfg = first_cfg
+        counters['reused_object_cases'] = 1
     if i % 5 == 3:
         # a clock that runs while the image is edited and mastered (every reading one second later)
         ops = [{'op': 'clock_tick', 'seconds': 1}] + ops
